@@ -131,6 +131,27 @@ Proof.
   change (Z.ones 1) with 1 in H. change (2 ^ 1) with 2 in H. rewrite H. lia.
 Qed.
 
+(* GIV_randIter<GFqDom>: the sampling size the constructor keeps, then the exponent draw.
+   Canonical for every requested size when the constructor clamps (repaired code); for size <= q otherwise. *)
+Lemma giv_randiter_size_bound size q :
+  1 <= q -> 0 <= size -> (giv_randiter_clamps = true \/ size <= q) -> 0 < giv_randiter_size size q <= q.
+Proof.
+  intros Hq Hs Hc. unfold giv_randiter_size. destruct giv_randiter_clamps.
+  - destruct (Z.eqb_spec size 0); cbn [negb andb]; [lia|].
+    destruct (Z.eqb_spec q 0); [lia|]. cbn [orb]. destruct (Z.ltb_spec size q); lia.
+  - destruct Hc as [Hc|Hc]; [discriminate|]. destruct (Z.eqb_spec size 0); lia.
+Qed.
+Definition Gfq_randiter_stmt : Prop :=
+  forall bits q size s, bits = 32 \/ bits = 64 -> 1 <= q -> q < 2 ^ (bits - 1) -> 0 <= size ->
+    (giv_randiter_clamps = true \/ size <= q) -> good_seed s ->
+    0 <= fst (gfq_random bits q (giv_randiter_size size q) s) < q.
+Lemma gfq_randiter_range : Gfq_randiter_stmt.
+Proof.
+  intros bits q size s Hb Hq Hq2 Hs Hc Hgs.
+  pose proof (giv_randiter_size_bound size q Hq Hs Hc) as Hz.
+  pose proof (gfq_random_range bits q (giv_randiter_size size q) s Hb Hz Hq2 Hgs). lia.
+Qed.
+
 (* ---------------------------------------------------------------- polynomials *)
 Lemma poly_low_spec (P : Z -> Prop) init n : forall s, (forall x, P (init x)) ->
   length (fst (poly_low n init s)) = n /\ Forall P (fst (poly_low n init s)) /\ snd (poly_low n init s) = lcg_iter n s.
@@ -166,6 +187,38 @@ Proof.
   intros init p d s Hp Hi Hs. unfold poly_random.
   destruct (ring_nonzerorandom_good_seed init p s Hp Hi Hs) as [a [s' [E _]]]. rewrite E.
   destruct (poly_low d init s'). discriminate.
+Qed.
+
+(* polynomials over the table field: exact degree, exponents canonical, leading exponent non-zero; total (no retry loop) *)
+Lemma good_seed_step s : good_seed s -> good_seed (lcg_next s).
+Proof. intros H. apply good_seed_next in H. destruct (valid_state_small _ H). split; assumption. Qed.
+Lemma poly_low_gfq_spec bits q n : forall s, bits = 32 \/ bits = 64 -> 1 <= q -> q < 2 ^ (bits - 1) -> good_seed s ->
+  length (fst (poly_low_gfq n bits q s)) = n /\ Forall (fun c => 0 <= c < q) (fst (poly_low_gfq n bits q s)).
+Proof.
+  induction n; intros s Hb Hq Hq2 Hs; cbn [poly_low_gfq].
+  - cbn. split; [reflexivity | constructor].
+  - pose proof (gfq_random_range bits q q s Hb ltac:(lia) Hq2 Hs) as Hc.
+    assert (Es : snd (gfq_random bits q q s) = lcg_next s) by reflexivity.
+    destruct (gfq_random bits q q s) as [c s1]. cbn [fst snd] in Hc, Es. subst s1.
+    destruct (IHn (lcg_next s) Hb Hq Hq2 (good_seed_step s Hs)) as [H1 H2].
+    destruct (poly_low_gfq n bits q (lcg_next s)) as [cs s2]. cbn [fst length] in *.
+    split; [lia | constructor; assumption].
+Qed.
+Definition Poly_random_gfq_stmt : Prop :=
+  forall bits q d s, bits = 32 \/ bits = 64 -> 2 <= q -> q < 2 ^ (bits - 1) -> good_seed s ->
+    let cs := fst (poly_random_gfq bits q d s) in
+    length cs = S d /\ 1 <= nth d cs 0 < q /\ Forall (fun c => 0 <= c < q) cs.
+Lemma poly_random_gfq_spec : Poly_random_gfq_stmt.
+Proof.
+  intros bits q d s Hb Hq Hq2 Hs. unfold poly_random_gfq.
+  pose proof (gfq_nonzerorandom_range bits q q s Hb ltac:(lia) Hq2 Hs) as Hl.
+  assert (Es : snd (gfq_nonzerorandom bits q q s) = lcg_next s) by reflexivity.
+  destruct (gfq_nonzerorandom bits q q s) as [lead s1]. cbn [fst snd] in Hl, Es. subst s1.
+  destruct (poly_low_gfq_spec bits q d (lcg_next s) Hb ltac:(lia) Hq2 (good_seed_step s Hs)) as [H1 H2].
+  destruct (poly_low_gfq d bits q (lcg_next s)) as [low s2]. cbn [fst] in *.
+  split; [rewrite app_length, rev_length, H1; cbn [length]; lia|]. split.
+  - rewrite app_nth2 by (rewrite rev_length; lia). rewrite rev_length, H1, Nat.sub_diag. cbn [nth]. lia.
+  - apply Forall_app. split; [apply Forall_rev; assumption | constructor; [lia | constructor]].
 Qed.
 
 (* ---------------------------------------------------------------- RecInt::rand *)
